@@ -106,12 +106,12 @@ theorem simple_curve_facts (j : Jordan) (h : simpleJ j = true) :
   ⟨simpleJ_polygon h, simpleJ_length h, simpleJ_chain h,
     fun i k e f he hf hik hw => simpleJ_nonadjacent h i k e f he hf hik hw⟩
 
-theorem wf_simple (j : Jordan) (h : wfProblems (.simple j) = []) : simpleJ j = true := wfProblems_simple h
+theorem wf_simple (j : Jordan) (h : wfProblems (.simple j) = []) : curveOK j = true := wfProblems_simple h
 
-/-- ConnectedShape: ≥ 2 curves, all simple, at most one counter-clockwise (outer) curve, every hole has
+/-- ConnectedShape: ≥ 2 curves, all accepted boundary curves (`curveOK`: simple, or touching itself at isolated points without crossing), at most one counter-clockwise (outer) curve, every hole has
 no piece outside or on the outer curve, distinct holes have no piece inside or on each other -/
 theorem wf_connected (js : List Jordan) (h : wfProblems (.connected js) = []) :
-    2 ≤ js.length ∧ (∀ j ∈ js, simpleJ j = true) ∧ (js.filter Jordan.ccw).length ≤ 1 ∧
+    2 ≤ js.length ∧ (∀ j ∈ js, curveOK j = true) ∧ (js.filter Jordan.ccw).length ≤ 1 ∧
     (∀ o ∈ js.filter Jordan.ccw, ∀ hl ∈ js.filter (fun j => !j.ccw),
         (curveRel hl o).2.1 = 0 ∧ (curveRel hl o).2.2 = 0) ∧
     (∀ hi ∈ (js.filter (fun j => !j.ccw)).zipIdx, ∀ hk ∈ (js.filter (fun j => !j.ccw)).zipIdx,
@@ -122,7 +122,7 @@ theorem wf_connected (js : List Jordan) (h : wfProblems (.connected js) = []) :
 simple shapes, the others are well-formed connected shapes -/
 theorem wf_disjoint (cs : List (List Jordan)) (h : wfProblems (.disjoint cs) = []) :
     2 ≤ cs.length ∧ componentsDisjoint cs = true ∧ (∀ c ∈ cs, c ≠ []) ∧
-    (∀ c ∈ cs, ∀ j, c = [j] → simpleJ j = true) ∧
+    (∀ c ∈ cs, ∀ j, c = [j] → curveOK j = true) ∧
     (∀ c ∈ cs, 2 ≤ c.length → wfProblems (.connected c) = []) := wfProblems_disjoint h
 
 /-- … hence no point off the edges lies in two components (components at two different positions) -/
